@@ -15,6 +15,7 @@
  */
 #pragma once
 
+#include <unifex/continuations.hpp>
 #include <unifex/bind_back.hpp>
 #include <unifex/get_allocator.hpp>
 #include <unifex/receiver_concepts.hpp>
